@@ -1230,3 +1230,11 @@ mod tests {
         );
     }
 }
+
+#[cfg(feature = "verif-hooks")]
+impl Alignment {
+    /// Verification hook (read-only): the operation list, whose field is private.
+    pub fn verif_operations(&self) -> &[AlignmentOperation] {
+        &self.operations
+    }
+}
